@@ -18,6 +18,9 @@ from .harness import Harness, Emitter
 from .p11 import rvname, Mech, ULONG
 from .tlaval import parse_call
 from . import testkeys as TK
+from . import refcrypto as R
+import hashlib
+import hmac as HMAC
 
 CAN = 0xA5
 BIG = 2147483647
@@ -30,6 +33,15 @@ class OpsDriver(Harness):
 
     def rnd(self, n):
         return bytes(self.rng.randrange(256) for _ in range(n))
+
+    def kb(self, name, n):
+        b = self.rnd(n)
+        if name == "des3":
+            b = bytes((x & 0xfe) | (bin(x >> 1).count("1") % 2 == 0) for x in b)
+        if not hasattr(self, "keybytes"):
+            self.keybytes = {}
+        self.keybytes[name] = b
+        return b
 
     def begin(self):
         p = self.p
@@ -52,9 +64,9 @@ class OpsDriver(Harness):
         e = TK.EC_P256
         d = TK.ED25519
         self.keys = {
-            "aes": sec(K.CKK_AES, self.rnd(16)),
-            "des3": sec(K.CKK_DES3, bytes((x & 0xfe) | (bin(x >> 1).count("1") % 2 == 0) for x in self.rnd(24))),
-            "gen": sec(K.CKK_GENERIC_SECRET, self.rnd(32)),
+            "aes": sec(K.CKK_AES, self.kb("aes", 16)),
+            "des3": sec(K.CKK_DES3, self.kb("des3", 24)),
+            "gen": sec(K.CKK_GENERIC_SECRET, self.kb("gen", 32)),
             "rsapub": mk([(K.CKA_CLASS, K.CKO_PUBLIC_KEY), (K.CKA_KEY_TYPE, K.CKK_RSA), (K.CKA_MODULUS, r["n"]),
                           (K.CKA_PUBLIC_EXPONENT, r["e"]), (K.CKA_ENCRYPT, True), (K.CKA_VERIFY, True)]),
             "rsapriv": mk([(K.CKA_CLASS, K.CKO_PRIVATE_KEY), (K.CKA_KEY_TYPE, K.CKK_RSA), (K.CKA_MODULUS, r["n"]),
@@ -72,6 +84,7 @@ class OpsDriver(Harness):
         }
         self.src = {"s1": b"", "s2": b""}       # pending valid ciphertext to feed to a decryption
         self.find_n = {}
+        self.cur = {"s1": None, "s2": None}     # the operation the driver believes active: dict(kind, m, mech, key, fed, out)
 
     # ---- mechanisms for the modes of P11Ops.ModeTable
     def mech_key(self, m, kind):
@@ -103,7 +116,10 @@ class OpsDriver(Harness):
             return p.find_init(s, [])
         mech, key = self.mech_key(m, kind)
         if kind == "Digest":
-            return p.op_init("Digest", s, mech)
+            rv = p.op_init("Digest", s, mech)
+            if rv == 0:
+                self.cur[sname] = dict(kind=kind, m=m, mech=mech, key=None, fed=b"", out=b"")
+            return rv
         if kind == "Decrypt" and key in ("aes", "des3"):
             # a valid ciphertext (made through the other session) to feed, so that Final can succeed
             o = self.aux
@@ -126,7 +142,10 @@ class OpsDriver(Harness):
                     self.src[sname] = ct
         else:
             self.src[sname] = b""
-        return p.op_init(kind, s, mech, self.keys[key])
+        rv = p.op_init(kind, s, mech, self.keys[key])
+        if rv == 0:
+            self.cur[sname] = dict(kind=kind, m=m, mech=mech, key=key, fed=b"", out=b"")
+        return rv
 
     def take(self, sname, fn, n):
         if fn.startswith("Decrypt") and self.src[sname]:
@@ -150,7 +169,7 @@ class OpsDriver(Harness):
         inb = p11.buf_ptr(data) if takes else None
         if a < 0:
             rv = f(s, inb, len(data), None, C.byref(n)) if takes else f(s, None, C.byref(n))
-            return dict(a=-1, rv=rvname(rv), L=min(n.value, BIG), w=0, guard=True)
+            return self.account(sname, fn, data, dict(a=-1, rv=rvname(rv), L=min(n.value, BIG), w=0, guard=True), b"")
         size = a + 64
         b = (C.c_ubyte * size)(*([CAN] * size))
         rv = f(s, inb, len(data), b, C.byref(n)) if takes else f(s, b, C.byref(n))
@@ -169,14 +188,71 @@ class OpsDriver(Harness):
             w = L if L <= a else w
         else:
             guard = guard and w == 0 if rv == K.CKR_BUFFER_TOO_SMALL else guard
-        return dict(a=a, rv=rvname(rv), L=min(L, BIG), w=min(w, BIG), guard=bool(guard))
+        return self.account(sname, fn, data, dict(a=a, rv=rvname(rv), L=min(L, BIG), w=min(w, BIG), guard=bool(guard)),
+                            raw[:L] if rv == 0 and L <= a else b"")
+
+    # ---- what the finished operation delivered, against a reference over exactly the accepted input
+    def account(self, sname, fn, data, res, outb):
+        c = self.cur.get(sname)
+        ends = fn in ("Encrypt", "EncryptFinal", "Decrypt", "DecryptFinal", "Digest", "DigestFinal", "Sign", "SignFinal")
+        if c is None or not fn.startswith(c["kind"]):
+            return res
+        if res["rv"] == "OK" and res["a"] >= 0:
+            # (a single-part call on an operation that multi-part calls have already fed has no defined result)
+            mixed = ends and not fn.endswith("Final") and c.get("upd")
+            c["fed"] += data
+            c["out"] += outb
+            c["upd"] = True
+            if ends:
+                res["fedn"] = len(c["fed"])
+                res["val"] = "na" if mixed else self.judge(c)
+                self.cur[sname] = None
+        elif res["rv"] not in ("OK", "BUFFER_TOO_SMALL"):
+            self.cur[sname] = None
+        return res
+
+    def judge(self, c):
+        """-> 'ok' | 'bad' | 'na' """
+        m, kind, fed, out = c["m"], c["kind"], c["fed"], c["out"]
+        kb = self.keybytes
+        try:
+            if kind == "Digest":
+                return "ok" if out == hashlib.new({"sha256": "sha256", "sha1": "sha1"}[m], fed).digest() else "bad"
+            if kind == "Sign":
+                if m == "hmac":
+                    return "ok" if out == HMAC.new(kb["gen"], fed, "sha256").digest() else "bad"
+                if m == "cmac":
+                    return "ok" if out == R.cmac("aes", kb["aes"], fed) else "bad"
+                key = {k2: int.from_bytes(v2, "big") for k2, v2 in TK.RSA1024.items()}
+                if m == "rsasig":
+                    return "ok" if out == R.rsa_sign_pkcs1(key, "sha256", fed) else "bad"
+                if m == "rsaraw":
+                    return "ok" if out == R.rsa_sign_pkcs1(key, None, fed) else "bad"
+                if m == "rsapss":
+                    return "ok" if R.rsa_verify_pss(key, "sha256", fed, out, 32) else "bad"
+                return "na"
+            if kind == "Encrypt" and c["key"] in ("aes", "des3"):
+                # the library's own inverse (through the scaffolding session, same mechanism parameters) gives the input back
+                p, o = self.p, self.aux
+                if p.op_init("Decrypt", o, c["mech"], self.keys[c["key"]]) != 0:
+                    return "na"
+                rv, pt = p.io_full("Decrypt", o, out)
+                if rv != 0:
+                    p.op_io("Decrypt", o, b"", 0)
+                    return "bad"
+                return "ok" if pt == fed else "bad"
+        except Exception:
+            return "na"
+        return "na"
 
     def call(self, em, sname, fn, n, bc):
         p = self.p
         s = self.S[sname]
         base = dict(e="Call", s=sname, fn=fn)
         if fn in ("DigestUpdate", "SignUpdate", "VerifyUpdate"):
-            rv = p.op_update(fn, s, self.rnd(n))
+            d0 = self.rnd(n)
+            rv = p.op_update(fn, s, d0)
+            self.account(sname, fn, d0, dict(a=0, rv=rvname(rv)), b"")
             em.emit(dict(base, n=n, a=0, rv=rvname(rv), L=0, w=0, guard=True))
             return
         if fn == "Verify":
